@@ -14,6 +14,7 @@ import (
 type Spark struct {
 	rowCount, colCount int
 	footerOffset       int
+	drawnRows          int // data rows drawn by the previous WriteTable
 	Scaler             termscaler.Scaler
 	Formatter          termformat.Formatter
 	table              *TableWriter
@@ -75,11 +76,21 @@ func (s *Spark) WriteTable(agg *aggregation.TableAggregator, rowSorter, colSorte
 		sb.Reset()
 	}
 
+	// Rows of an earlier, larger state (the aggregator can be trimmed between
+	// renders) must not stay on screen
+	for i := rowCount; i < s.drawnRows; i++ {
+		s.table.WriteRow(i + 1)
+	}
+	s.drawnRows = rowCount
+
 	// If more rows than can display, write how many were missed
 	if len(rows) > rowCount {
 		s.table.WriteFooter(0, color.Wrapf(color.BrightBlack, "(%d more)", len(rows)-rowCount))
 		s.footerOffset = 1
 	} else {
+		if s.footerOffset == 1 { // the footer moves up one line: blank its old last line
+			s.table.WriteFooter(2, "")
+		}
 		s.footerOffset = 0
 	}
 }
